@@ -30,7 +30,7 @@ FAMILIES = {
 }
 STRS = ['', 'a', 'B', 'ab', 'aB', 'x€', 'Zz9', ' ', 'b', 'ba', 'A']
 ID2_STR = ['a', 'b', 'c', 'd', 'e', 'f', 'g', 'h', 'i', 'j', 'A', 'ab']
-NULL_RATES = [0.0, 0.15, 0.3, 0.6, 1.0]
+NULL_RATES = [0.0, 0.1, 0.15, 0.3, 0.3, 0.5, 0.6, 0.8, 1.0]
 
 
 def nsx(n):
@@ -89,7 +89,7 @@ class AnGen:
         partition because (Id_1, Id_2) is the dataset key)."""
         r = self.r
         meas = list(FAMILIES[fam])
-        nparts = r.choice([0, 1, 1, 2, 3, 4, 5, 6, 8])
+        nparts = r.choice([0, 1, 1, 2, 2, 3, 3, 4, 4, 5, 6, 8])
         sizes = []
         total = 0
         for _ in range(nparts):
